@@ -2,6 +2,7 @@
 C18 — filter/group operations partition the list; containers never drop silently.
 -/
 import PyTRS.Model.Containers
+import PyTRS.Lemmas.Filter
 set_option linter.unusedSectionVars false
 namespace PyTRS
 open PyTRS.Cont
@@ -84,6 +85,27 @@ theorem C18_group_keys (l : List α) (key : α → κ) : GroupsOK key (groupBy1 
   exact this l [] (fun e he => by simp at he)
 
 end
+
+/-- `filter(key)` returns exactly the elements that satisfy the predicate, in their original order, and leaves
+    the receiver untouched (the reverse-pop index bookkeeping of `_new_list_from_self` is what is proved) -/
+theorem C18_filter_spec {α : Type} (l : List α) (p : α → Bool) : filterBy l p false = (l.filter p, l) :=
+  filterBy_keep l p
+
+/-- with `drop=True` the receiver keeps exactly the others, in order -/
+theorem C18_filter_drop_spec {α : Type} (l : List α) (p : α → Bool) :
+    filterBy l p true = (l.filter p, l.filter (fun x => !p x)) :=
+  filterBy_drop l p
+
+/-- together: a partition of the list (nothing lost, nothing duplicated) -/
+theorem C18_filter_partition {α : Type} (l : List α) (p : α → Bool) :
+    ((filterBy l p true).1 ++ (filterBy l p true).2).Perm l :=
+  filterBy_partition l p
+
+/-- `filter_errors` is `filter` with the error predicate: same laws -/
+theorem C18_filter_errors_spec (l : List Elem) (twp rge sec undef : Bool) :
+    filterErrors l twp rge sec undef true
+      = (l.filter (isErrElem twp rge sec undef), l.filter (fun x => !isErrElem twp rge sec undef x)) :=
+  filterBy_drop l _
 
 /-- `filter_duplicates` rejects an unknown method with ValueError (and touches nothing) -/
 theorem C18_bad_method_rejected (l : List Elem) (m : String) (isTRS drop : Bool)
